@@ -194,6 +194,17 @@ def rule_ed_guard(ctx: RuleContext, p: Program, fns: list[FuncInfo], rid: str) -
                                                  and c.func.attr in ('read', 'read_text', 'read_bytes') for c in ast.walk(a.value)):
                 t = a.targets[0]
                 read_vars.add(t.id if isinstance(t, ast.Name) else norm(t.value) if isinstance(t, ast.Subscript) else norm(t))
+        # a container that is filled from a read variable holds read text too: texts[k] = text  (text = f.read())
+        changed = True
+        while changed:
+            changed = False
+            for a in walk_no_nested(fn.node):
+                if isinstance(a, ast.Assign) and isinstance(a.value, ast.Name) and a.value.id in read_vars:
+                    t = a.targets[0]
+                    key = t.id if isinstance(t, ast.Name) else norm(t.value) if isinstance(t, ast.Subscript) else norm(t)
+                    if key not in read_vars:
+                        read_vars.add(key)
+                        changed = True
         for c, text in _write_sites(fn):
             n += 1
             ok = False
